@@ -85,7 +85,7 @@ def predict_flush(view, pre):
 
 def run_case(case):
     R = ref.Recs()
-    spec = case["spec"]
+    spec = case.get("spec")
     snaps = {}
     import atomica.model as M
 
@@ -98,7 +98,7 @@ def run_case(case):
     with attach.Attach() as A:
         hooked = A.wrap(M.Model, "flush_junctions", pre=pre, post=post)
         try:
-            P, result, view = simcase.simulate(spec, R)
+            P, result, view = simcase.simulate_case(case, R)
         except simcase.Excluded as e:
             return {"records": R.records(), "stats": R.stats, "nontrivial": False, "excluded": e.reason}
     # 1. empty at every index, in = out (from the conservation checker), 2. the split
@@ -167,4 +167,4 @@ def run_case(case):
         R.inc("flush=push-down")
     for f in simprop.features(view):
         R.count("feature[%s]" % f)
-    return {"records": R.records(), "stats": R.stats, "nontrivial": bool(nontrivial), "sample": simprop.sample_of(spec)}
+    return {"records": R.records(), "stats": R.stats, "nontrivial": bool(nontrivial), "sample": simprop.sample_of_case(case)}
